@@ -4,11 +4,17 @@ import ReplicatProofs.Lemmas.RetryRun
 
 Property theorems only (helper lemmas: `Lemmas/Retry.lean`, `RetryLoop.lean`, `RetryAttempts.lean`, `RetryPolicy.lean`,
 `RetryRun.lean`).  All statements are about `Retry.runUp` / `Retry.runDown` (model of `upload_stream` / `download_stream` of the
-local, S3-compatible and B2 adapters under a fault plan — one fault per attempt, any kind, any position) with the configuration
+local, S3-compatible and B2 adapters under a fault plan — one fault per attempt, any kind, any position, and for the local adapter
+any class of OSError: `Fault.errno k f` is fault `f` surfacing with errno `k`, e.g. `errno 2 mktemp` = ENOENT because the freshly
+created directory is gone again when the temp file is created) with the configuration
 `cfgOf b` that the extractor reads from the source on every run, for ALL payloads, chunk sizes ≥ 1, previous objects, previous
 sink contents and fault plans.
 
-* `cfg_sound` — the extracted configuration has every rewind / truncate / unlink / decorator the other theorems need (`decide`).
+* `cfg_sound` — the extracted configuration has every rewind / truncate / unlink / decorator the other theorems need, and the
+  back-off decorators single out no class of OSError in a `giveup=` predicate (`decide`).
+* `every_oserror_class_retried` — local adapter: below the limit an OSError of ANY errno class is answered with a plain retry.
+* `errno_giveup_breaks_masked` — the same model with a `giveup=` that singles out one errno class (ENOENT) violates `masked`:
+  one fault of that class, well inside the budget, ends the call (the extracted, empty table matters).
 * `masked_upload`, `masked_download` — fewer transient faults than `max_tries`: success, the stored / delivered bytes are exactly
   the payload, one attempt per fault that fires plus one.
 * `never_partial` — whatever the plan (also beyond the budget): after every attempt the visible object is the previous one or the
@@ -39,11 +45,22 @@ def NoReauthFault (b : Backend) (x : Fault) : Prop := StatusIn (NoReauthCode b (
 /-- The configuration extracted from the current source has the shape all theorems below rely on: every streaming method rewinds
 to 0 in an except-branch that catches everything and re-raises, the local upload unlinks its temp file, downloads truncate the
 sink inside the `try`, the S3 digest helper rewinds to 0 and runs outside the retry loop, every method carries its back-off
-decorator with a positive `max_tries` and the error class of its adapter, B2 methods are wrapped in `requires_auth`. -/
+decorator with a positive `max_tries` and the error class of its adapter, no decorator has a `giveup=` predicate that singles
+out a class of OSError (the local decorator has none at all: the empty table is exact), B2 methods are wrapped in `requires_auth`. -/
 theorem cfg_sound (b : Backend) :
     UpSound b (cfgOf b) ∧ DownSound (cfgOf b) ∧ PolSound (cfgOf b) (cfgOf b).upDecorated ∧ PolSound (cfgOf b) (cfgOf b).downDecorated ∧
-    UpAuthSound b (cfgOf b) ∧ DownAuthSound b (cfgOf b) ∧ Gen.retrySectionOk = true := by
+    UpAuthSound b (cfgOf b) ∧ DownAuthSound b (cfgOf b) ∧ Gen.retrySectionOk = true ∧ Gen.retryLocalGiveupExact = true := by
   cases b <;> decide
+
+/-- **Every class of OSError is transient for the local adapter.**  Whatever errno the error carries (ENOENT, EACCES, ENOSPC,
+EIO, none …): below `max_tries` the answer is a plain retry with a back-off sleep, at `max_tries` the error is raised — for the
+upload and the download.  (So `masked_upload` / `masked_download` below, which quantify over all plans, cover every
+`Fault.errno k f`.) -/
+theorem every_oserror_class_retried (k tries rounds : Nat) :
+    upPolicy .local (cfgOf .local) (.os k) tries rounds = (if tries = budget .local then .raise (.os k) false else .retry false) ∧
+    downPolicy .local (cfgOf .local) (.os k) tries rounds = (if tries = budget .local then .raise (.os k) false else .retry false) := by
+  obtain ⟨_, _, h3, h4, _⟩ := cfg_sound .local
+  exact ⟨policy_local_os (cfgOf .local) _ _ h3 k tries rounds, policy_local_os (cfgOf .local) _ _ h4 k tries rounds⟩
 
 /-! ## masked -/
 
@@ -61,7 +78,7 @@ theorem masked_upload (b : Backend) (c : Nat) (hc : 0 < c) (data : Bytes) (old :
     (runUp b (cfgOf b) c fuel plan data 0 data.length old).attempts ≤ plan.length + 1 ∧
     ((∀ x ∈ plan, UpHard b x) → (runUp b (cfgOf b) c fuel plan data 0 data.length old).attempts = plan.length + 1) ∧
     (∀ v ∈ (runUp b (cfgOf b) c fuel plan data 0 data.length old).history, v = old ∨ v = some data) := by
-  obtain ⟨h1, _, h3, _, h5, _, _⟩ := cfg_sound b
+  obtain ⟨h1, _, h3, _, h5, _, _, _⟩ := cfg_sound b
   obtain ⟨r1, r2, r3, r4⟩ := runUp_masked b (cfgOf b) h1 h3 h5 c hc data old plan fuel htr hlen hfuel hroom
   exact ⟨r1, r2.2.2, r2.2.1, r2.1, r3, r4, (runUp_never_partial b (cfgOf b) h1 c hc data old plan fuel).1⟩
 
@@ -75,7 +92,7 @@ theorem masked_download (b : Backend) (c : Nat) (hc : 0 < c) (obj sink0 : Bytes)
     (runDown b (cfgOf b) c fuel plan obj sink0 0 file).final.pos = obj.length ∧
     (runDown b (cfgOf b) c fuel plan obj sink0 0 file).attempts ≤ plan.length + 1 ∧
     ((∀ x ∈ plan, DownHard b x) → (runDown b (cfgOf b) c fuel plan obj sink0 0 file).attempts = plan.length + 1) := by
-  obtain ⟨_, h2, _, h4, _, h6, _⟩ := cfg_sound b
+  obtain ⟨_, h2, _, h4, _, h6, _, _⟩ := cfg_sound b
   obtain ⟨r1, r2, r3, r4⟩ := runDown_masked b (cfgOf b) h2 h4 h6 c hc obj sink0 file plan fuel htr hlen hfuel hroom
   exact ⟨r1, r2.1, r2.2, r3, r4⟩
 
@@ -106,7 +123,7 @@ theorem bounded_partial (b : Backend) (c : Nat) (hc : 0 < c) (data : Bytes) (old
     (plan : List Fault) (fuel : Nat) (hcl : ∀ x ∈ plan, NoReauthFault b x) :
     (runUp b (cfgOf b) c fuel plan data 0 data.length old).attempts ≤ budget b ∧
     (runDown b (cfgOf b) c fuel plan data sink0 0 file).attempts ≤ budget b := by
-  obtain ⟨h1, h2, h3, h4, h5, h6, _⟩ := cfg_sound b
+  obtain ⟨h1, h2, h3, h4, h5, h6, _, _⟩ := cfg_sound b
   exact ⟨runUp_bounded b (cfgOf b) h1 h3 h5 c hc data old plan fuel hcl,
          runDown_bounded b (cfgOf b) h2 h4 h6 c hc data sink0 file plan fuel hcl⟩
 
@@ -118,7 +135,7 @@ theorem persistent_error_partial (b : Backend) (c : Nat) (hc : 0 < c) (data : By
       ∃ e, (runUp b (cfgOf b) c fuel plan data 0 data.length old).outcome = .error e) ∧
     (∀ plan : List Fault, (∀ x ∈ plan, NoReauthFault b x ∧ DownHard b x) → budget b ≤ plan.length →
       ∃ e, (runDown b (cfgOf b) c fuel plan data sink0 0 file).outcome = .error e) := by
-  obtain ⟨h1, h2, h3, h4, h5, h6, _⟩ := cfg_sound b
+  obtain ⟨h1, h2, h3, h4, h5, h6, _, _⟩ := cfg_sound b
   exact ⟨fun plan hcl hlen => runUp_persistent b (cfgOf b) h1 h3 h5 c hc data old plan fuel hcl hlen hfuel,
          fun plan hcl hlen => runDown_persistent b (cfgOf b) h2 h4 h6 c hc data sink0 file plan fuel hcl hlen hfuel⟩
 
@@ -205,6 +222,20 @@ theorem cleanup_needed :
     (runUp .local { cfgOf .local with upUnlink := false } 3 10 [.mid 1] [1, 2, 3, 4, 5, 6, 7, 8, 9, 10] 0 10 none).final.temps = 1 := by
   refine ⟨by decide, by decide⟩
 
+/-- **An empty give-up table is needed.**  The same model with a `giveup=` predicate that singles out ENOENT: ONE fault of that
+class (the directory of the object vanished before the temp file was created), with 4 tries left, ends the upload with the
+error after a single attempt and stores nothing — while the same fault with any other errno is masked. -/
+theorem errno_giveup_breaks_masked :
+    (runUp .local { cfgOf .local with giveupOs := [2] } 3 10 [.errno 2 .mktemp] [1, 2, 3, 4, 5, 6, 7, 8, 9, 10] 0 10 none).outcome
+      = .error (.os 2) ∧
+    (runUp .local { cfgOf .local with giveupOs := [2] } 3 10 [.errno 2 .mktemp] [1, 2, 3, 4, 5, 6, 7, 8, 9, 10] 0 10 none).attempts = 1 ∧
+    (runUp .local { cfgOf .local with giveupOs := [2] } 3 10 [.errno 2 .mktemp] [1, 2, 3, 4, 5, 6, 7, 8, 9, 10] 0 10 none).final.visible
+      = none ∧
+    (runUp .local { cfgOf .local with giveupOs := [2] } 3 10 [.errno 13 .mktemp] [1, 2, 3, 4, 5, 6, 7, 8, 9, 10] 0 10 none).outcome = .ok ∧
+    (runDown .local { cfgOf .local with giveupOs := [2] } 3 10 [.errno 2 (.mid 1)] [1, 2, 3, 4, 5, 6, 7] [] 0 false).outcome
+      = .error (.os 2) := by
+  refine ⟨by decide, by decide, by decide, by decide, by decide⟩
+
 /-! ## totality of the model -/
 
 /-- The fuel is never the reason for stopping: with more fuel than faults the model always reaches a verdict. -/
@@ -226,6 +257,25 @@ example : (∀ x ∈ [Fault.mid 1, Fault.mid 2, Fault.rename], Transient .local 
   refine ⟨?_, by decide, by decide, by decide⟩
   intro x _ code ra h
   exact fun h' => by cases h'
+
+/-- OSErrors of different classes at different places of a local transfer (ENOENT when the temp file is created, ENOSPC in the
+middle of the copy, EACCES from the rename, an OSError without errno from the payload stream): masked, one attempt per fault -/
+example : (∀ x ∈ [Fault.errno 2 .mktemp, .errno 28 (.mid 1), .errno 13 .rename, .errno 0 (.src 2)], Transient .local x) ∧
+    (∀ x ∈ [Fault.errno 2 .mktemp, .errno 13 .rename], UpHard .local x) ∧
+    (runUp .local (cfgOf .local) 3 10 [.errno 2 .mktemp, .errno 28 (.mid 1), .errno 13 .rename, .errno 0 (.src 2)]
+      [1, 2, 3, 4, 5, 6, 7, 8, 9, 10] 0 10 none).attempts = 5 ∧
+    (runUp .local (cfgOf .local) 3 10 [.errno 2 .mktemp, .errno 28 (.mid 1), .errno 13 .rename, .errno 0 (.src 2)]
+      [1, 2, 3, 4, 5, 6, 7, 8, 9, 10] 0 10 none).final.visible = some [1, 2, 3, 4, 5, 6, 7, 8, 9, 10] ∧
+    (runUp .local (cfgOf .local) 3 10 (List.replicate 7 (.errno 2 .mktemp)) [1, 2, 3, 4] 0 4 none).outcome = .error (.os 2) ∧
+    (runUp .local (cfgOf .local) 3 10 (List.replicate 7 (.errno 2 .mktemp)) [1, 2, 3, 4] 0 4 none).attempts = budget .local ∧
+    (runDown .local (cfgOf .local) 3 10 [.errno 2 .pre, .errno 116 (.mid 1)] [1, 2, 3, 4, 5, 6, 7] [8, 8] 0 true).final.buf
+      = [1, 2, 3, 4, 5, 6, 7] := by
+  refine ⟨?_, ?_, by decide, by decide, by decide, by decide, by decide⟩
+  · intro x _ code ra h
+    exact fun h' => by cases h'
+  · intro x hx
+    simp only [List.mem_cons, List.not_mem_nil, or_false] at hx
+    rcases hx with rfl | rfl <;> exact trivial
 
 /-- mixed B2 plan within the budget (429, a broken connection, a 500 that triggers one re-authentication): masked -/
 example : (runUp .b2 (cfgOf .b2) 3 10 [.status 429 false, .mid 2, .status 500 false] [1, 2, 3, 4, 5, 6, 7] 0 7 none).outcome = .ok ∧
